@@ -4,7 +4,7 @@ CHECK = dict(
     property='C11', level='exploration',
     families=[('proofs', 0.7), ('merkle', 0.3)],
     budget=dict(quick=55, thorough=900), max_runs=dict(quick=200_000, thorough=5_000_000),
-    rule='motifs: header proofs with the old tip as checkpoint all through a fork while the backup jobs are slow; a restart with a fork arriving while the header merkle cache is being populated; each evaluation = one simulated run as in C10; at each quiescence point id_from_pos(merkle=true), get_merkle and get_tsc_merkle (all target types) for all positions of small blocks and sampled positions of large ones, block.header(h, cp) for all (h <= cp <= tip) pairs on short chains (sampled on longer ones) and block.headers with a checkpoint are verified with an independent merkle fold against the header / the merkle root of the current block hashes up to the checkpoint; out-of-range requests must be refused; proof requests are also in flight while blocks are undone (cache-populating requests in the reorg window). non-trivial = a proof sweep completed',
+    rule='fresh blocks of >= 200 transactions whose first proof request (a cache miss) overlaps the fork replacing them; motifs: header proofs with the old tip as checkpoint all through a fork while the backup jobs are slow; a restart with a fork arriving while the header merkle cache is being populated; each evaluation = one simulated run as in C10; at each quiescence point id_from_pos(merkle=true), get_merkle and get_tsc_merkle (all target types) for all positions of small blocks and sampled positions of large ones, block.header(h, cp) for all (h <= cp <= tip) pairs on short chains (sampled on longer ones) and block.headers with a checkpoint are verified with an independent merkle fold against the header / the merkle root of the current block hashes up to the checkpoint; out-of-range requests must be refused; proof requests are also in flight while blocks are undone (cache-populating requests in the reorg window). non-trivial = a proof sweep completed',
     assumptions=['model bitcoind / Electrum clients / TCP / LevelDB / file system are simulator models; '
                  'everything of ElectrumX and aiorpcX runs real', 'session cost throttling disabled '
                  '(COST_*_LIMIT=0) so that oracle sweeps are not throttled',
